@@ -93,6 +93,10 @@ func genbankExtraFieldParser(gb *GenBank, depth int) pars.Parser {
 			return errGenBankExtra
 		}
 		name := string(result.Token)
+		if name == "LOCUS" {
+			// the next record starts although this one has not ended
+			return fieldError{pars.NewError("expected `//` before the next LOCUS line", state.Position())}
+		}
 		fieldBodyparser(state, result)
 		value := string(result.Token)
 		extra := GenBankExtraField(name, value)
@@ -523,16 +527,18 @@ func makeGenbankOriginParser(length int) genbankSubparser {
 				p = result.Token
 			}
 
-			// The block must end here: another numbered line means that it
-			// holds more residues than LOCUS declares.
+			// The block must end here, and ORIGIN is the last field of a
+			// record: what follows, after blank lines at most, is the end of
+			// the record. Anything else - another numbered line, residues
+			// behind a blank line - is more than LOCUS declares.
 			state.Push()
 			c, err := pars.Next(state)
-			for err == nil && c == spaceByte {
+			for err == nil && (c == spaceByte || c == '\t' || c == '\r' || c == '\n') {
 				state.Advance()
 				c, err = pars.Next(state)
 			}
 			state.Pop()
-			if err == nil && '0' <= c && c <= '9' {
+			if err == nil && c != '/' {
 				return pars.NewError("sequence is longer than the length declared in LOCUS", state.Position())
 			}
 
